@@ -10,53 +10,84 @@ package generator
 // rwOK: the writer's position is the position of the end of what it has written (byte offset, number of
 // line feeds, bytes after the last line feed). nlCount(s, i) / lineStart(s, i): number of line feeds in
 // s[:i] / offset just after the last of them.
+// counting in a prefix does not depend on what follows it (fact about the specification functions, not derived)
+//@ lemma nlPrefix(a, b, i) [C07]: i <= len(a) ==> nlCount(cat(a, b), i) == nlCount(a, i) && lineStart(cat(a, b), i) == lineStart(a, i) by axiom
 //@ spec colAfter(col0, s, i) = ite(nlCount(s, i) == 0, col0 + i, i - lineStart(s, i))
 //@ spec rwOK(rw) = rw.Current.Index == len(out(rw.w)) && rw.Current.Line == nlCount(out(rw.w), len(out(rw.w))) && rw.Current.Col == len(out(rw.w)) - lineStart(out(rw.w), len(out(rw.w)))
+
+// All facts are stated for runs in which nothing has failed (ghost flag failedDuring: some writer or callee
+// reported an error; the generator sometimes overwrites an error by the result of a later call, so "returned
+// nil" is not the same thing). Append-only output is unconditional.
 
 // write(s): the returned range starts at the position before the write and ends at the position after it;
 // the output only grows and the position stays in step with it; for well-formed UTF-8 exactly the bytes of
 // s are appended (ill-formed bytes are re-encoded as U+FFFD by the range loop - outside the claim).
 //@ func (*RangeWriter) write [C07]
-//@   requires rw != nil && rwOK(rw)
+//@   requires rw != nil && implies(!failedDuring, rwOK(rw))
 // machine arithmetic: line, column and index counters do not wrap (generated files are far below 2 GiB)
 //@   assume entry: len(out(rw.w)) + 4*len(s) < 1<<31
 //@   modifies rw.Current, out(rw.w), failedDuring
-//@   ensures r.From == old(rw.Current)
-//@   ensures implies(err == nil, rwOK(rw) && r.To == rw.Current && isPrefix(old(out(rw.w)), out(rw.w)) && len(out(rw.w)) <= old(len(out(rw.w))) + 4*len(s))
-//@   ensures implies(err == nil && inL(s, UTF8_VALID), out(rw.w) == cat(old(out(rw.w)), s))
-//@   ensures implies(err == nil && inL(s, UTF8_VALID), rw.Current.Line == old(rw.Current.Line) + nlCount(s, len(s)) && rw.Current.Col == colAfter(old(rw.Current.Col), s, len(s)))
-//@   loop 1 invariant err == nil && len(utf8Bytes) == 4 && r.From == old(rw.Current)
-//@   loop 1 invariant rwOK(rw)
+//@   ensures r.From == old(rw.Current) && isPrefix(old(out(rw.w)), out(rw.w)) && implies(err != nil, failedDuring) && implies(old(failedDuring), failedDuring)
+//@   ensures implies(!failedDuring, rwOK(rw) && r.To == rw.Current && len(out(rw.w)) <= old(len(out(rw.w))) + 4*len(s))
+//@   ensures implies(!failedDuring && inL(s, UTF8_VALID), out(rw.w) == cat(old(out(rw.w)), s))
+//@   ensures implies(!failedDuring && inL(s, UTF8_VALID), rw.Current.Line == old(rw.Current.Line) + nlCount(s, len(s)) && rw.Current.Col == colAfter(old(rw.Current.Col), s, len(s)))
+// the start of the range is the line / column of its byte offset in the output
+//@   ensures implies(!failedDuring && inL(s, UTF8_VALID), r.From.Index == old(len(out(rw.w))) && r.From.Line == nlCount(out(rw.w), r.From.Index) && r.From.Col == r.From.Index - lineStart(out(rw.w), r.From.Index))
+//@   use exit: nlPrefix(old(out(rw.w)), s, old(rw.Current.Index))
+//@   loop 1 invariant len(utf8Bytes) == 4 && r.From == old(rw.Current) && implies(old(failedDuring), failedDuring) && implies(!failedDuring, err == nil)
+//@   loop 1 invariant implies(!failedDuring, rwOK(rw))
 //@   loop 1 invariant isPrefix(old(out(rw.w)), out(rw.w)) && len(out(rw.w)) <= old(len(out(rw.w))) + 4*iter
-//@   loop 1 invariant implies(inL(s, UTF8_VALID), out(rw.w) == cat(old(out(rw.w)), s[:iter]))
-//@   loop 1 invariant implies(inL(s, UTF8_VALID), rw.Current.Line == old(rw.Current.Line) + nlCount(s, iter) && rw.Current.Col == colAfter(old(rw.Current.Col), s, iter))
+//@   loop 1 invariant implies(!failedDuring && inL(s, UTF8_VALID), out(rw.w) == cat(old(out(rw.w)), s[:iter]))
+//@   loop 1 invariant implies(!failedDuring && inL(s, UTF8_VALID), rw.Current.Line == old(rw.Current.Line) + nlCount(s, iter) && rw.Current.Col == colAfter(old(rw.Current.Col), s, iter))
 
 // Write / WriteIndent: a pending string literal is flushed first, then (the indentation and) s is written;
 // the returned range is the range of s itself.
-//@ spec wroteLast(rw, r, s) = rwOK(rw) && r.To == rw.Current && implies(inL(s, UTF8_VALID), isSuffix(s, out(rw.w)) && r.From.Index == len(out(rw.w)) - len(s) && r.To.Line == r.From.Line + nlCount(s, len(s)) && r.To.Col == colAfter(r.From.Col, s, len(s)))
+//@ spec wroteLast(rw, r, s) = rwOK(rw) && r.To == rw.Current && implies(inL(s, UTF8_VALID), isSuffix(s, out(rw.w)) && r.From.Index == len(out(rw.w)) - len(s) && r.From.Line == nlCount(out(rw.w), r.From.Index) && r.From.Col == r.From.Index - lineStart(out(rw.w), r.From.Index) && r.To.Line == r.From.Line + nlCount(s, len(s)) && r.To.Col == colAfter(r.From.Col, s, len(s)))
 
 //@ func (*RangeWriter) Write [C07]
-//@   requires rw != nil && rwOK(rw) && rw.builder != nil
+//@   requires rw != nil && rw.builder != nil && implies(!failedDuring, rwOK(rw))
 //@   modifies rw.inLiteral, rw.index, rw.Literals, out(rw.builder), rw.Current, out(rw.w), failedDuring
-//@   ensures implies(err == nil, wroteLast(rw, r, s) && isPrefix(old(out(rw.w)), out(rw.w)) && rw.builder != nil)
+//@   ensures isPrefix(old(out(rw.w)), out(rw.w)) && implies(err != nil, failedDuring) && implies(old(failedDuring), failedDuring) && rw.builder != nil
+//@   ensures implies(!failedDuring, wroteLast(rw, r, s))
 
 //@ func (*RangeWriter) WriteIndent [C07]
-//@   requires rw != nil && rwOK(rw) && rw.builder != nil && level >= 0
+//@   requires rw != nil && rw.builder != nil && implies(!failedDuring, rwOK(rw))
 //@   modifies rw.inLiteral, rw.index, rw.Literals, out(rw.builder), rw.Current, out(rw.w), failedDuring
-//@   ensures implies(err == nil, wroteLast(rw, r, s) && isPrefix(old(out(rw.w)), out(rw.w)) && rw.builder != nil)
+//@   running isPrefix(old(out(rw.w)), out(rw.w))
+//@   ensures isPrefix(old(out(rw.w)), out(rw.w)) && implies(err != nil, failedDuring) && implies(old(failedDuring), failedDuring) && rw.builder != nil
+//@   ensures implies(!failedDuring, wroteLast(rw, r, s))
 
 //@ func (*RangeWriter) closeLiteral [C07]
-//@   requires rw != nil && rwOK(rw) && rw.builder != nil && indent >= 0
+//@   requires rw != nil && rw.builder != nil && implies(!failedDuring, rwOK(rw))
 //@   modifies rw.inLiteral, rw.index, rw.Literals, out(rw.builder), rw.Current, out(rw.w), failedDuring
-//@   ensures implies(err == nil, rwOK(rw) && isPrefix(old(out(rw.w)), out(rw.w)) && rw.builder != nil)
+//@   running isPrefix(old(out(rw.w)), out(rw.w))
+//@   ensures isPrefix(old(out(rw.w)), out(rw.w)) && implies(err != nil, failedDuring) && implies(old(failedDuring), failedDuring) && rw.builder != nil
+//@   ensures implies(!failedDuring, rwOK(rw))
 
 //@ func (*RangeWriter) writeErrorHandler [C07]
-//@   requires rw != nil && rwOK(rw) && rw.builder != nil && indentLevel >= 0
-//@   running implies(err == nil, isPrefix(old(out(rw.w)), out(rw.w)))
+//@   requires rw != nil && rw.builder != nil && implies(!failedDuring, rwOK(rw))
 //@   modifies rw.inLiteral, rw.index, rw.Literals, out(rw.builder), rw.Current, out(rw.w), failedDuring
-//@   ensures implies(err == nil, rwOK(rw) && isPrefix(old(out(rw.w)), out(rw.w)) && rw.builder != nil)
+//@   running isPrefix(old(out(rw.w)), out(rw.w))
+//@   ensures isPrefix(old(out(rw.w)), out(rw.w)) && implies(err != nil, failedDuring) && implies(old(failedDuring), failedDuring) && rw.builder != nil
+//@   ensures implies(!failedDuring, rwOK(rw))
 
 //@ func (*RangeWriter) WriteStringLiteral [C07]
 //@   requires rw != nil && rw.builder != nil
 //@   modifies rw.inLiteral, out(rw.builder)
 //@   ensures err == nil
+
+// ---------------------------------------------------------------------------
+// C07, generator side: every method of the generator keeps the writer's position in step with its output and
+// the source map tables well formed, and only appends to the output. With that, the call-site clause of
+// SourceMap.Add (parser/v2/verif_contracts.go) is checked at each of the generator's g.sourceMap.Add(expr, r)
+// calls: the text the range r was returned for is the expression that is being mapped.
+//@ spec smOK(sm) = sm.SourceLinesToTarget != nil && sm.TargetLinesToSource != nil && forall(l, 0, 1<<32, implies(has(sm.SourceLinesToTarget, l), sm.SourceLinesToTarget[l] != nil)) && forall(l, 0, 1<<32, implies(has(sm.TargetLinesToSource, l), sm.TargetLinesToSource[l] != nil))
+//@ spec genPtrs(g) = g != nil && g.w != nil && g.w.builder != nil && g.sourceMap != nil && smOK(g.sourceMap)
+
+//@ methods (*generator) [C07]
+//@   requires genPtrs(g) && implies(!failedDuring, rwOK(g.w))
+//@   modifies *
+//@   running isPrefix(old(out(g.w.w)), out(g.w.w)) && implies(old(failedDuring), failedDuring)
+//@   ensures isPrefix(old(out(g.w.w)), out(g.w.w)) && implies(lasterr != nil, failedDuring) && implies(old(failedDuring), failedDuring) && genPtrs(g)
+//@   ensures implies(!failedDuring, rwOK(g.w))
+//@   loop 0 invariant genPtrs(g) && implies(errvar() != nil, failedDuring) && implies(!failedDuring, rwOK(g.w)) && isPrefix(old(out(g.w.w)), out(g.w.w)) && implies(old(failedDuring), failedDuring)
